@@ -214,6 +214,8 @@ def run(ctx):
     ]
     fakenet.quiet()
     ctx.coq_build("C31/Props.v")
+    # real-codec theorems: depend on C29's development (another engineer's files)
+    ctx.coq_build(["C31/RealCodec.v", "C31/PropsReal.v"])   # RealCodec.vo is always rebuilt against the current C29
 
     from ioflo.aio.http import clienting
     if clienting.Requester.HttpVersionString != u'HTTP/1.1':
@@ -288,7 +290,11 @@ def run(ctx):
             continue
         wire_cases.append(("(parse_all %s %s)" % (cnat_(len(shapes) + 1), cbytes(res["wire"])), impl_outcome_literal(res)))
         wire_meta.append((shapes, res))
-    badw = ctx.coq_cases(HEADER + WIRE_HEADER, "out_eqb", wire_cases, shard=6, name="wire")
+    try:
+        badw = ctx.coq_cases(HEADER + WIRE_HEADER, "out_eqb", wire_cases, shard=6, name="wire")
+    except RuntimeError as ex:   # RealCodec / C29 did not build: the tie is broken, the run goes on
+        ctx.tie_broken("correspondence", "C31 RealCodec.real_parse on the real wire could not be evaluated", str(ex)[-800:])
+        badw = []
     for i in badw[:3]:
         ctx.tie_broken("correspondence", "C31 RealCodec.real_parse (C29 Respondent model) vs Patron on the real wire",
                        "shapes=%r wire=%r" % (wire_meta[i][0], wire_meta[i][1]["wire"][:300]))
@@ -338,6 +344,7 @@ def run(ctx):
             "key": ("responder-reset-chunkable" if undelimited else
                     "nonpersistent-request-closed-before-body" if (shapes[-1][0] == "close" and
                                                                    len(res["responses"]) < len(shapes)) else
+                    "keepalive-responses-missing" if len(res["responses"]) < len(shapes) else
                     "response-body-alias"),
             "shapes": [repr(s) for s in shapes], "schedule": sched, "generator_app": gen,
             "why": why,
